@@ -297,6 +297,15 @@ def install(I):
     def _round(I, ctx, v, nd=None):
         if isinstance(v, (int, float)) and not isinstance(v, Sym):
             return round(v, nd) if nd is not None else round(v)
+        if isinstance(v, Sym) and v.kind in ("real", "int") and (nd is None or isinstance(nd, int) or isinstance(nd, Sym)):
+            # round(x, d) of a symbolic number: an unspecified function of (value, digits) - what is known about it is only that the
+            # same arguments give the same result (so a clause that needs the unrounded value fails)
+            ctx.assumed_ext.add("round(x, d): an uninterpreted function of (value, digits)")
+            if v.kind == "int" and nd is None:
+                return v
+            f = z3.Function("PYROUND", z3.RealSort(), z3.IntSort(), z3.RealSort())
+            d = z3.IntVal(0) if nd is None else (z3.IntVal(nd) if isinstance(nd, int) else B.zint(nd))
+            return Sym(f(B.zreal(v), d))
         raise Unsupported("round() of symbolic value")
 
     @reg("vars")
@@ -526,6 +535,8 @@ def py_type(I, ctx, v):
         return v.attrs["cls"]
     if isinstance(v, Opaque) and str(v.tag).startswith("array:") and getattr(I, "ndarray_class", None) is not None:
         return I.ndarray_class
+    if isinstance(v, Opaque) and v.attrs.get("type_token"):
+        return v.attrs["type_token"]()
     raise Unsupported(f"type() of {v!r}")
 
 
